@@ -111,6 +111,7 @@ fn main() {
                 "C08" => mon_c08::run(&mut rng, n, &mut rep),
                 "BR" => mon_c10::run(&mut rng, n, &mut rep),
                 "TXS" => fam_tx::monitor(&mut rng, n, &mut rep),
+                "ORA" => fam_oracle::monitor(&mut rng, n, &mut rep),
                 "C12" => mon_c12::run(&mut rng, n, &mut rep),
                 "C13" => mon_c13::run(&mut rng, n, &mut rep),
                 "C14" => mon_c14::run(&mut rng, n, &mut rep),
